@@ -23,7 +23,10 @@ def add_rules(rnd, sp, grid_time):
     rules = []
     targets = []
     for i in range(nr):
-        freq = rnd.choice(["repeated", "repeated", "start", "dt", repr(grid_time)])
+        # scheduled times also with many significant digits (a rule fires when the time EQUALS its scheduled time, so the
+        # number has to survive the text round trip exactly)
+        freq = rnd.choice(["repeated", "repeated", "start", "dt", repr(grid_time), repr(grid_time),
+                           rnd.choice(["1000.125", "0.1234567", repr(0.1 + 0.2), repr(grid_time * 1024 + 1.0 / 3), "2.5e-7", repr(float(rnd.randint(10 ** 6, 10 ** 7)) + 0.5)])])
         kind = rnd.choice(["additive", "assignment", "assignment", "assignment_param"])
         tname = "T%d" % i
         if kind == "additive":
@@ -192,7 +195,8 @@ def run_case(case):
         if r0:
             I0, I1 = ModelCSimInterface(M), ModelCSimInterface(R)
             for st in case["states"][:5]:
-                for (tt, step) in ((0.0, True), (case["grid_time"], False), (0.3, True), (0.3, False)):
+                sched = sorted(set(float(t_[2]) for t_ in r0 if str(t_[2]) not in ("repeated", "repeat", "start", "dt")))
+                for (tt, step) in [(0.0, True), (case["grid_time"], False), (0.3, True), (0.3, False)] + [(ts_, False) for ts_ in sched]:
                     a = specmod.state_vec(M, st); b = specmod.state_vec(R, st)
                     M.set_params(q0); R.set_params({k: q0[k] for k in q0})
                     I0.py_apply_repeated_rules(a, tt, step)
